@@ -86,7 +86,7 @@ def run(pid, tier, tmp, replay):
         'mc_distinct_states': mc_res['distinct'],
         'mc_exhaustive_within_constants': bool(mc_res.get('completed')),
         'witnesses_reached': sorted(wit_res['seen']),
-        'trace_executions': val['executions'], 'trace_events': val['lines'],
+        'trace_executions': val['executions'], 'trace_events': val['lines'], 'trace_executions_skipped_search_limit': val.get('skipped_search_limit', 0),
         'trace_rejections': len(val['rejections']),
         'kill_events': sum(1 for l in lines if l.startswith('{"e":"Kill"')),
         'driver_profile': cfg['profile'], 'exhaustive': False,
